@@ -46,16 +46,39 @@ def handle (s : St) (ws : List String) : St × String :=
   | ["new", stmt, rn, tt, tm] => match stmt.toNat?, rn.toNat?, optB tt, optB tm with
     | some st, some rn, some (some tt), some (some tm) => ({ stmt := st, nextRunNo := rn, tt := tt, tm := tm }, "ok")
     | _, _, _, _ => (s, "bad-op")
-  | ["pexit", r] =>
-    -- the child emits a prompt and exits at once (the event is still in the channel when the process has exited):
-    -- the model runs the two environment operations back to back
-    match optN r with
-    | some r =>
-      let (s1, o1) := step s .childPrompt
-      let (s2, o2) := step s1 (.childExit r)
-      let ce := match s2.cont with | some b => b01 b | none => "E"
-      (s2, " ".intercalate ((o1 ++ o2).map obsS ++ [s!"st={s2.ms}", s!"ce={ce}"]))
-    | none => (s, "bad-op")
+  | [cmd, r] =>
+    -- `xreset r` / `xclose r`: the child exits and a caller that watches the state attribute calls reset()/close() the
+    -- moment it reads 'finished' (the `finish` transition may still be in progress); serially: childExit, then the call
+    if cmd = "xreset" ∨ cmd = "xclose" then
+      if s.waitBlocked || s.closeBlocked then (s, "skipped") else
+      match optN r with
+      | some r =>
+        let (s1, o1) := step s (.childExit r)
+        let op2 : Op := if cmd = "xreset" then .reset none none none none else .close
+        if s.childAlive && s1.ms = "finished" then
+          let (s2, o2) := step s1 op2
+          let ce := match s2.cont with | some b => b01 b | none => "E"
+          (s2, " ".intercalate ((o1 ++ o2).map obsS ++ [s!"st={s2.ms}", s!"ce={ce}"]))
+        else
+          let ce := match s1.cont with | some b => b01 b | none => "E"
+          (s1, " ".intercalate (o1.map obsS ++ [s!"st={s1.ms}", s!"ce={ce}"]))
+      | none => (s, "bad-op")
+    else if cmd = "pexit" then
+      match optN r with
+      | some r =>
+        let (s1, o1) := step s .childPrompt
+        let (s2, o2) := step s1 (.childExit r)
+        let ce := match s2.cont with | some b => b01 b | none => "E"
+        (s2, " ".intercalate ((o1 ++ o2).map obsS ++ [s!"st={s2.ms}", s!"ce={ce}"]))
+      | none => (s, "bad-op")
+    else
+      match parseOp ws with
+      | some op =>
+        if op.isLifecycle && (s.waitBlocked || s.closeBlocked) then (s, "skipped") else
+        let (s', o) := step s op
+        let ce := match s'.cont with | some b => b01 b | none => "E"
+        (s', " ".intercalate (o.map obsS ++ [s!"st={s'.ms}", s!"ce={ce}"]))
+      | none => (s, "bad-op")
   | _ =>
     match parseOp ws with
     | some op =>
